@@ -118,7 +118,7 @@ Definition astutil_tbl : list (string * list apart) := [
   ("Package", [APkgFiles])].
 
 Definition same_as_astutil : list (string * bool) := [
-  ("Apply", false);
+  ("Apply", true);
   ("var abort", true);
   ("type Cursor", true);
   ("Cursor.Node", true);
@@ -136,7 +136,7 @@ Definition same_as_astutil : list (string * bool) := [
 Definition apply_frame_same_as_astutil : bool := true.
 Definition apply_frame_ok : bool := true.
 Definition apply_list_shape_ok : bool := true.
-Definition apply_entry_ok : bool := false.
+Definition apply_entry_ok : bool := true.
 
 Definition ir_Replace : list iop := [IFileCase; IField; IAtIndex; ISetV].
 Definition ir_Delete : list iop := [IFileCase; IGetIndex; IPanicIfNoSlice; IField; ILen; ICopy 0 1; IZeroLast; ITrunc; IStep (-1)].
